@@ -219,7 +219,7 @@ Definition run_history (l : list op) : trace := run_ops world0 l.
 End Run.
 
 (* ---- concrete syntax: case line -> history ------------------------------------------------------------ *)
-Definition words (l : bytes) : list bytes := filter (fun t => match t with [] => false | _ => true end) (split_on 32 l).
+Definition words (l : bytes) : list bytes := filter (fun t => match t with [] => false | _ => true end) (split_on_fast 32 l).
 
 Definition parse_num (l : bytes) : option N := undec l.
 Definition parse_Z (l : bytes) : option Z :=
@@ -229,14 +229,14 @@ Definition parse_Z (l : bytes) : option Z :=
   end.
 
 Definition parse_kv (t : bytes) : option (bytes * bytes) :=
-  match cut ch_eq t with (k, Some v) => Some (k, v) | _ => None end.
+  match cut_fast ch_eq t with (k, Some v) => Some (k, v) | _ => None end.
 
 Fixpoint parse_fieldlist (l : list bytes) : option (list (N * bytes)) :=
   match l with
   | [] => Some []
   | [] :: l' => parse_fieldlist l'
   | fv :: l' =>
-    match cut ch_eq fv with
+    match cut_fast ch_eq fv with
     | (t, Some v) =>
       match parse_num t, parse_fieldlist l' with
       | Some tag, Some r => Some ((tag, unhex v) :: r)
@@ -259,12 +259,12 @@ Fixpoint parse_spec_parts (l : list bytes) (sp : msgspec) : msgspec :=
       end
     else if c =? 110 then parse_spec_parts l' (mkSpec (ms_type sp) (ms_hdr sp) (ms_body sp) (ms_custom sp) true (ms_ok sp))
     else if c =? 72 then
-      match parse_fieldlist (split_on 44 rest) with
+      match parse_fieldlist (split_on_fast 44 rest) with
       | Some fl => parse_spec_parts l' (mkSpec (ms_type sp) (ms_hdr sp ++ fl)%list (ms_body sp) (ms_custom sp) (ms_noinc sp) (ms_ok sp))
       | None => bad
       end
     else if c =? 66 then
-      match parse_fieldlist (split_on 44 rest) with
+      match parse_fieldlist (split_on_fast 44 rest) with
       | Some fl => parse_spec_parts l' (mkSpec (ms_type sp) (ms_hdr sp) (ms_body sp ++ fl)%list (ms_custom sp) (ms_noinc sp) (ms_ok sp))
       | None => bad
       end
@@ -272,7 +272,7 @@ Fixpoint parse_spec_parts (l : list bytes) (sp : msgspec) : msgspec :=
   end.
 
 Definition parse_spec (l : bytes) : msgspec :=
-  match split_on 47 l with
+  match split_on_fast 47 l with
   | t :: parts => parse_spec_parts parts (mkSpec t [] [] 0 false true)
   | [] => mkSpec [] [] [] 0 false false
   end.
@@ -304,7 +304,7 @@ Fixpoint parse_start_kvs (l : list bytes) (p : startp) (t : option Z) : startp *
       let par := sp_par p in
       let setpar q := mkStart (sp_role p) (sp_pk p) (sp_snd p) (sp_tgt p) q (sp_hb p) (sp_ss p) (sp_rs p) in
       if beq k k_sid then
-        let '(a, b) := cut 58 v in
+        let '(a, b) := cut_fast 58 v in
         parse_start_kvs l' (mkStart (sp_role p) (sp_pk p) a (match b with Some x => x | None => [] end) par (sp_hb p) (sp_ss p) (sp_rs p)) t
       else if beq k k_asa then parse_start_kvs l' (setpar (mkParams (is1 v) (pr_ec par) (pr_sd par) (pr_rsn par) (pr_clients par))) t
       else if beq k k_ec then parse_start_kvs l' (setpar (mkParams (pr_asa par) (is1 v) (pr_sd par) (pr_rsn par) (pr_clients par))) t
@@ -312,7 +312,7 @@ Fixpoint parse_start_kvs (l : list bytes) (p : startp) (t : option Z) : startp *
       else if beq k k_rsn then parse_start_kvs l' (setpar (mkParams (pr_asa par) (pr_ec par) (pr_sd par) (is1 v) (pr_clients par))) t
       else if beq k k_clients then
         parse_start_kvs l' (setpar (mkParams (pr_asa par) (pr_ec par) (pr_sd par) (pr_rsn par)
-                                             (filter (fun c => match c with [] => false | _ => true end) (split_on 44 v)))) t
+                                             (filter (fun c => match c with [] => false | _ => true end) (split_on_fast 44 v)))) t
       else if beq k k_hb then
         parse_start_kvs l' (mkStart (sp_role p) (sp_pk p) (sp_snd p) (sp_tgt p) par (match parse_num v with Some n => n | None => 0 end) (sp_ss p) (sp_rs p)) t
       else if beq k k_ss then
@@ -347,17 +347,17 @@ Definition parse_op (l : bytes) : op :=
     else if beq name [84;73;67;75] then                            (* TICK *)
       match args with a :: _ => match parse_Z a with Some t => OTick t | None => OBad end | _ => OBad end
     else if beq name [73;78] then                                  (* IN *)
-      match args with a :: _ => OIn (map unhex (split_on 44 a)) | _ => OBad end
+      match args with a :: _ => OIn (map unhex (split_on_fast 44 a)) | _ => OBad end
     else if beq name [83;69;78;68] then                            (* SEND *)
       match args with a :: _ => OSend (parse_spec a) | _ => OBad end
     else if beq name [66;65;84;67;72] then                         (* BATCH *)
-      match args with a :: _ => OBatch (map parse_spec (split_on 59 a)) | _ => OBad end
+      match args with a :: _ => OBatch (map parse_spec (split_on_fast 59 a)) | _ => OBad end
     else if beq name [83;84;79;80] then OStop                      (* STOP *)
     else if beq name [80;69;69;82;67;76;79;83;69] then OPeerClose  (* PEERCLOSE *)
     else OBad
   end.
 
-Definition parse_history (line : bytes) : list op := map parse_op (split_on 124 line).
+Definition parse_history (line : bytes) : list op := map parse_op (split_on_fast 124 line).
 
 (* ---- concrete syntax: trace -> result line ---------------------------------------------------------- *)
 Definition sp : bytes := [32].
@@ -460,7 +460,7 @@ Fixpoint split_items (l : list item) (evs : list event) : step :=
 Definition parse_step (l : bytes) : step :=
   match l with
   | [] => mkStep [] None
-  | _ => split_items (map parse_item (split_on 59 l)) []
+  | _ => split_items (map parse_item (split_on_fast 59 l)) []
   end.
 
-Definition parse_trace (line : bytes) : trace := map parse_step (split_on 124 line).
+Definition parse_trace (line : bytes) : trace := map parse_step (split_on_fast 124 line).
